@@ -1,6 +1,7 @@
 package checks
 
 import (
+	"encoding/binary"
 	"bytes"
 	"fmt"
 	"os"
@@ -487,6 +488,107 @@ func runExt4Case(prop string, c core.Case, env *core.Env) core.Result {
 			}
 		}
 		res.Mark("directories grown block by block between other allocations")
+		if !drv.Diverged {
+			drv.Light = false
+			if prop == "C04" {
+				drv.Compare(fs, "live", nil)
+			}
+			reopenCmp()
+		}
+	case "inodeedge":
+		// the inode table is used up object by object, twice; the objects that receive the last and first inode
+		// numbers of every block group (numbers around each multiple of inodes-per-group, as the superblock on the
+		// image states it) are directories in the first round and symbolic links and files in the second, and
+		// every call around such a number, and the refusal when no inode is left, is followed by e2fsck;
+		// then everything is removed again with the same attention to the boundary numbers
+		drv.Light = true
+		sbRaw := st.Peek(cfg.Start+1024, 0x30)
+		inodes := int(binary.LittleEndian.Uint32(sbRaw[0:4]))
+		ipg := int(binary.LittleEndian.Uint32(sbRaw[0x28:0x2c]))
+		if ipg <= 0 || inodes <= 0 {
+			res.Inconclusive = "no inode geometry in the superblock"
+			return res
+		}
+		explicit := func(when string, op fsdrive.Op) bool {
+			if prop != "C05" {
+				return true
+			}
+			return fsck(when, op, nil)
+		}
+		const nd = 8
+		for d := 0; d < nd; d++ {
+			if !step(fsdrive.Op{Kind: "mkdir", Path: fmt.Sprintf("e%d", d)}) {
+				return res
+			}
+		}
+		limit := inodes + 8
+		if ec.Steps > 0 && ec.Steps < limit {
+			limit = ec.Steps
+		}
+		for round := 0; round < 2; round++ {
+			type obj struct {
+				path string
+				near bool
+			}
+			var made []obj
+			exhausted := false
+			for i := 0; i < limit; i++ {
+				ino := 12 + nd + i // the number this object is expected to get (first free from 11 upwards); the window below allows for being off by a few
+				d := ino % ipg
+				near := d <= 4 || d >= ipg-4
+				path := fmt.Sprintf("e%d/r%d_%05d", i%nd, round, i)
+				op := fsdrive.Op{Kind: "write", Path: path, Len: 0}
+				switch {
+				case near && round == 0, !near && i%9 == 4:
+					op = fsdrive.Op{Kind: "mkdir", Path: path}
+				case near && i%2 == 0:
+					op = fsdrive.Op{Kind: "symlink", Path: path, Path2: fmt.Sprintf("../e0/r%d_%05d", round, i)}
+				case near:
+					op = fsdrive.Op{Kind: "write", Path: path, Len: bs + 1, DSeed: uint64(i + 1)}
+				}
+				if !step(op) {
+					return res
+				}
+				failed := drv.History[len(drv.History)-1].Err != ""
+				if near || failed {
+					res.Count("inodeedge.calls_at_group_boundary_numbers", 1)
+					if !explicit(fmt.Sprintf("after %s as object number %d (inodes per group %d)", op.Kind, ino, ipg), op) {
+						return res
+					}
+				}
+				if failed {
+					exhausted = true
+					break
+				}
+				made = append(made, obj{path, near})
+			}
+			if exhausted {
+				res.Mark("inode table used up")
+			}
+			if !explicit("after using up the inode table", fsdrive.Op{Kind: "write"}) {
+				return res
+			}
+			for k := range made {
+				o := made[k]
+				if round == 0 {
+					o = made[len(made)-1-k]
+				}
+				op := fsdrive.Op{Kind: "remove", Path: o.path}
+				if !step(op) {
+					return res
+				}
+				if o.near {
+					res.Count("inodeedge.calls_at_group_boundary_numbers", 1)
+					if !explicit("after removing an object with a number next to a multiple of inodes-per-group", op) {
+						return res
+					}
+				}
+			}
+			if !explicit("after removing every object again", fsdrive.Op{Kind: "remove"}) {
+				return res
+			}
+		}
+		res.Mark("objects created and removed at the last and first inode numbers of block groups")
 		if !drv.Diverged {
 			drv.Light = false
 			if prop == "C04" {
